@@ -32,6 +32,13 @@ FIXED_TREE = {'hier': [1, 2, 3], 'keys': [1, 2, 3],
               'cells': [[n, []] for n in range(1, 6)]}
 
 
+DEEP_TREE = {'hier': [1, 2, 3, 4], 'keys': [1, 2, 3, 4],
+             'nodes': [[1, 2], [1, 2, 3], [1, 2, 3, 4], [1, 2, 3, 4, 5]],
+             'kids': [[[1, [1, 2]], [2, [3]]], [[1, [1, 2]], [2, [3]], [3, [4]]],
+                      [[1, [1, 2]], [2, [3]], [3, [4]], [4, [5]]], [[n, []] for n in range(1, 6)]],
+             'cells': [[n, []] for n in range(1, 6)]}
+
+
 def observe(tj, drop, table, qgenes, rgenes, minm, scheme, workdir):
     """call the real reconciliation; returns dict(outcome, genes, paired, error)"""
     from cell_type_mapper.taxonomy.taxonomy_tree import TaxonomyTree
@@ -95,7 +102,7 @@ def irrelevant_key(msg, scheme, s):
         return False
     nm = taxo.Naming(scheme)
     l, n = m.group(1).split('/', 1)
-    li = nm.inv_level(l, [1, 2, 3])
+    li = nm.inv_level(l, [1, 2, 3, 4])
     key = [li, nm.inv_node(li, n)]
     return key not in [e['key'] for e in s['rec']]
 
@@ -116,6 +123,33 @@ def is_f12(table, QG, RG, minm, consulted):
     return found
 
 
+def _s2c_one(args):
+    s, scheme, wd = args
+    table = [[e['key'], e['genes']] for e in s['table']]
+    rg = sorted(s['RG'])
+    qg = list(s['QG'])
+    random.Random(len(table) + s['minm']).shuffle(qg)
+    o = observe(DEEP_TREE if s['deep'] else FIXED_TREE, s['drop'], table, qg, rg, s['minm'], scheme, wd)
+    want_err = len(s['errs']) > 0
+    if want_err and o['outcome'] == 'ok':
+        if s['errs'] == ['unknown_to_reference'] and is_f12(table, s['QG'], s['RG'], s['minm'], None):
+            return 'cache:unknown-marker-dropped-by-patch', f'{s}', o
+        return 'clause:810', f'spec requires an error {s["errs"]} but the cache was built: {s}', o
+    if not want_err and o['outcome'] == 'error':
+        if irrelevant_key(o['error'], scheme, s):
+            return 'map:irrelevant-key-no-overlap', f'{o["error"][:200]}: {s}', o
+        return 'clause:811', f'spec expects success, code raised {o["error"][:200]}: {s}', o
+    if not want_err:
+        got = {tuple(k2): v for k2, v in o['genes']}
+        for e in s['rec']:
+            if got.get(tuple(e['key'])) != sorted(e['genes']):
+                return 'clause:812', (f'parent {e["key"]}: code uses {got.get(tuple(e["key"]))}, spec '
+                                      f'{sorted(e["genes"])} (scheme {scheme}): {s}'), o
+        if not o['paired']:
+            return 'clause:814', f'cache columns not paired by name: {s}', o
+    return 'ok', '', o
+
+
 def run(ctx):
     quick = ctx.tier == 'quick'
     rng = random.Random(ctx.seed + 8)
@@ -128,7 +162,7 @@ def run(ctx):
     ctx.cov['trusted_base'] = ['TLC 1.8', 'harness projection']
     ng, mm = (2, 2) if quick else (3, 3)
     if ctx.only in (None, 'mc'):
-        cfg = ('SPECIFICATION Spec\n' f'CONSTANTS NGenes = {ng} MaxMin = {mm}\n' +
+        cfg = ('SPECIFICATION Spec\n' f'CONSTANTS NGenes = {ng} MaxMin = {mm} Deep = TRUE\n' +
                ''.join(f'INVARIANT {i}\n' for i in ('OnlyQueryGenes', 'OwnKept', 'EnoughOwnMeansOnlyOwn',
                                                     'AddedFromAncestors', 'RootUsableAllUsable',
                                                     'MinReached')) + 'CHECK_DEADLOCK FALSE\n')
@@ -138,60 +172,56 @@ def run(ctx):
             raise MachineryError('MarkerTable_MC violated:\n' + res.error_trace)
     wd = ctx.tmpdir('c08_')
     if ctx.only in (None, 's2c'):
-        cfg = f'SPECIFICATION GenSpec\nCONSTANTS NGenes = 2 MaxMin = 2\nCHECK_DEADLOCK FALSE\n'
-        res = run_tlc('MarkerTable_MC', cfg_text=cfg, workers=1, timeout=3600)
-        ctx.add_tlc('MarkerTable_MC_gen', res)
-        scns = [json.loads(t[1]) for t in res.tuples('SCN')]
+        scns = []
+        for deep in ('FALSE', 'TRUE'):
+            cfg = (f'SPECIFICATION GenSpec\nCONSTANTS NGenes = 2 MaxMin = 2 Deep = {deep}\n'
+                   'CHECK_DEADLOCK FALSE\n')
+            res = run_tlc('MarkerTable_MC', cfg_text=cfg, workers=1, timeout=3600)
+            ctx.add_tlc(f'MarkerTable_MC_gen_{deep}', res)
+            part = [json.loads(t[1]) for t in res.tuples('SCN')]
+            for x in part:
+                x['deep'] = deep == 'TRUE'
+            scns += part
+        def interesting(x):
+            # fallback happens at a non-root parent that has at least two proper ancestors
+            own = {tuple(e['key']): set(e['genes']) for e in x['table']}
+            for e in x['rec']:
+                k = tuple(e['key'])
+                if k[0] >= 3 and len(own.get(k, set()) & set(x['QG'])) < x['minm']:
+                    return True
+            return False
+        scns = [x for x in scns if not x['flat']]
         if quick:
-            scns = rng.sample(scns, 2500)
+            hot = [x for x in scns if x['deep'] and x['drop'] == 0 and interesting(x)]
+            rest = [x for x in scns if not (x['deep'] and x['drop'] == 0 and interesting(x))]
+            scns = rng.sample(hot, min(len(hot), 1500)) + rng.sample(rest, 1500)
         else:
             ctx.cov['exhaustive'] = True
         bad = 0
-        # choice parents of the (possibly reduced) fixed tree; flatten is exercised by full runs
-        for k, s in enumerate(scns):
-            if s['flat']:
+        import concurrent.futures as cf
+        jobs = [(x, sch, str(wd)) for x in scns for sch in ('structural', 'reversed', 'shared')]
+        with cf.ProcessPoolExecutor(max_workers=12) as ex:
+            outs = list(ex.map(_s2c_one, jobs, chunksize=200))
+        for (x, scheme, _), (kind, msg, o) in zip(jobs, outs):
+            if scheme == 'structural':
+                ctx.count({'s': x}, nontrivial=len(x['table']) > 1)
+            else:
+                ctx.cov['evaluations'] += 1
+            if kind == 'ok':
                 continue
-            table = [[e['key'], e['genes']] for e in s['table']]
-            scheme = ['structural', 'reversed', 'shared'][k % 3]
-            rg = sorted(s['RG'])
-            qg = list(s['QG'])
-            rng.shuffle(qg)
-            o = observe(FIXED_TREE, s['drop'], table, qg, rg, s['minm'], scheme, wd)
-            ctx.count({'s': s}, nontrivial=len(table) > 1 or True)
-            want_err = len(s['errs']) > 0
-            if want_err and o['outcome'] == 'ok':
-                consulted = {tuple(e['key']) for e in s['rec']}
-                if s['errs'] == ['unknown_to_reference'] and is_f12(table, s['QG'], s['RG'], s['minm'], consulted):
-                    ctx.report('cache:unknown-marker-dropped-by-patch', f'{s}', {'scenario': s})
-                else:
-                    bad += 1
-                    ctx.report('clause:810', f'spec requires an error {s["errs"]} but the cache was '
-                               f'built: {s}', {'scenario': s, 'scheme': scheme})
-            elif not want_err and o['outcome'] == 'error' and irrelevant_key(o['error'], scheme, s):
-                ctx.report('map:irrelevant-key-no-overlap', f'{o["error"][:200]}: {s}', {'scenario': s})
-            elif not want_err and o['outcome'] == 'error':
+            if kind in ('cache:unknown-marker-dropped-by-patch', 'map:irrelevant-key-no-overlap'):
+                ctx.report(kind, msg, {'scenario': x, 'scheme': scheme})
+            else:
                 bad += 1
-                ctx.report('clause:811', f'spec expects success, code raised {o["error"][:200]}: {s}',
-                           {'scenario': s, 'scheme': scheme})
-            elif not want_err:
-                got = {tuple(k2): v for k2, v in o['genes']}
-                for e in s['rec']:
-                    if got.get(tuple(e['key'])) != sorted(e['genes']):
-                        bad += 1
-                        ctx.report('clause:812', f'parent {e["key"]}: code uses {got.get(tuple(e["key"]))}, '
-                                   f'spec {sorted(e["genes"])}: {s}', {'scenario': s, 'scheme': scheme})
-                        break
-                if not o['paired']:
-                    bad += 1
-                    ctx.report('clause:814', f'cache columns not paired by name: {s}', {'scenario': s})
-            if k == 5:
-                ctx.sample({'kind': 'emitted', 'scenario': s, 'observed': o})
+                ctx.report(kind, msg, {'scenario': x, 'scheme': scheme})
+        if scns:
+            ctx.sample({'kind': 'emitted', 'scenario': scns[0]})
         ctx.part('s2c', scenarios=len(scns), disagreements=bad)
     if ctx.only in (None, 'c2s'):
         n = 400 if quick else 6000
         recs = []
         for i in range(n):
-            tj = maptrace.random_tree(rng, 4, 7, 2)
+            tj = maptrace.random_tree(rng, 5 if i % 2 else 4, 7, 2)
             G = rng.randint(3, 6)
             pars = maptrace.all_parents(tj)
             table = []
@@ -231,12 +261,6 @@ def run(ctx):
                       nontrivial=len(r['table']) > 1)
             if not v['accepted']:
                 rej += 1
-                top = r['tree']['nodes'][0] if (not r['drop'] or r['drop'] != r['tree']['hier'][0]) \
-                    else r['tree']['nodes'][1]
-                if v['inv'] == 811 and len(top) == 1 and (r['error'] or '').startswith('KeyError') and \
-                        not any(t[0] == [0, 0] for t in r['table']):
-                    ctx.report('cache:single-top-node:no-root-group', json.dumps(r)[:500], {'record': r})
-                    continue
                 ctx.report(f'clause:{v["inv"]}', f'observation rejected by MarkerTable_Trace clause '
                            f'{v["inv"]}: {json.dumps(r)[:700]}', {'record': r})
         ctx.sample({'kind': 'observation', 'record': recs[0]})
